@@ -177,6 +177,9 @@ impl Check for Timelock {
     fn components(&self) -> serde_json::Value {
         serde_json::json!({"real": ["stellar_governance::timelock::* behind a bare wrapper"], "stub": ["Target (call counter, scripted trap)"]})
     }
+    fn clock_step(&self, n: u32) -> Option<Step> {
+        Some(Step::Advance { n })
+    }
     fn dup_ok(&self, _s: &Step) -> bool {
         true
     }
